@@ -3636,6 +3636,27 @@ bool ts_query_cursor_set_containing_point_range(
   return true;
 }
 
+// Does a captured node end before the start of the cursor's range? A zero-width
+// node that sits exactly at the start of the range is inside it, as it is for
+// `range_intersects`.
+static inline bool ts_query_cursor__node_precedes_range(
+  const TSQueryCursor *self,
+  TSNode node
+) {
+  uint32_t end_byte = ts_node_end_byte(node);
+  TSPoint end_point = ts_node_end_point(node);
+  if (ts_node_start_byte(node) == end_byte) {
+    return (
+      end_byte < self->included_range.start_byte ||
+      point_lt(end_point, self->included_range.start_point)
+    );
+  }
+  return (
+    end_byte <= self->included_range.start_byte ||
+    point_lte(end_point, self->included_range.start_point)
+  );
+}
+
 // Search through all of the in-progress states, and find the captured
 // node that occurs earliest in the document.
 static bool ts_query_cursor__first_in_progress_capture(
@@ -3662,10 +3683,7 @@ static bool ts_query_cursor__first_in_progress_capture(
     }
 
     TSNode node = array_get(captures, state->consumed_capture_count)->node;
-    if (
-      ts_node_end_byte(node) <= self->included_range.start_byte ||
-      point_lte(ts_node_end_point(node), self->included_range.start_point)
-    ) {
+    if (ts_query_cursor__node_precedes_range(self, node)) {
       state->consumed_capture_count++;
       i--;
       continue;
@@ -4816,10 +4834,7 @@ bool ts_query_cursor_next_capture(
 
       TSNode node = array_get(captures, state->consumed_capture_count)->node;
 
-      bool node_precedes_range = (
-        ts_node_end_byte(node) <= self->included_range.start_byte ||
-        point_lte(ts_node_end_point(node), self->included_range.start_point)
-      );
+      bool node_precedes_range = ts_query_cursor__node_precedes_range(self, node);
       bool node_follows_range = (
         ts_node_start_byte(node) >= self->included_range.end_byte ||
         point_gte(ts_node_start_point(node), self->included_range.end_point)
